@@ -135,6 +135,66 @@ func c03Cases(tier string) []driver.Case {
 			}
 		}
 	}
+	// ---- asm-wrappers configuration: internal/sm4 CTR / CBC / ECB around the kernels ----
+	sp := "internal/sm4"
+	sm4ov := map[string]string{
+		driver.Module + "/internal/sm4.encryptBlockGo":  "verifModel_encryptBlockGo",
+		"(*" + driver.Module + "/internal/sm4.ctr).genCtr": "verifModel_genCtr",
+	}
+	addA := func(h string, p map[string]int, ov map[string]string) {
+		cs = append(cs, driver.Case{Harness: h, Pkg: sp, Config: "asm", Params: p, Overrides: ov})
+	}
+	for tier := 0; tier < 3; tier++ {
+		bb := 4
+		if tier == 2 {
+			bb = 8
+		}
+		for st := 0; st < bb; st++ {
+			addA("verifH_c03_genctr", P("tier", tier, "start", 16*st), map[string]string{driver.Module + "/internal/sm4.encryptBlockGo": "verifModel_encryptBlockGo"})
+		}
+		for single := 0; single < 2; single++ {
+			// CTR partitions around the 512-byte buffer and the batch size
+			type part struct{ a, b, c int }
+			parts := []part{{0, 0, 1}, {1, 0, 15}, {15, 1, 1}, {16, 16, 16}, {17, 0, 0}, {5, 64, 3}, {100, 0, 0}, {511, 1, 1}, {512, 0, 17}, {497, 16, 31}, {3, 520, 10}, {600, 0, 0}, {300, 300, 0}}
+			if tier != 0 && tier != 2 && single == 1 {
+				parts = parts[:6]
+			}
+			if tier == 0 || tier == 1 || tier == 2 {
+				for _, pt := range parts {
+					if tier == 1 && (pt.a+pt.b+pt.c) > 200 {
+						continue // AVX differs from SSE only inside the kernel
+					}
+					for inplace := 0; inplace < 2; inplace++ {
+						if inplace == 1 && pt.a+pt.b+pt.c > 120 {
+							continue
+						}
+						addA("verifH_c03_ctr", P("tier", tier, "single", single, "n1", pt.a, "n2", pt.b, "n3", pt.c, "inplace", inplace), sm4ov)
+					}
+				}
+			}
+			if tier == 1 {
+				continue
+			}
+			for dir := 0; dir < 2; dir++ {
+				for n1 := 1; n1 <= 3; n1++ {
+					for n2 := 1; n2 <= 9; n2 += 4 {
+						for inplace := 0; inplace < 2; inplace++ {
+							for setiv := 0; setiv < 2; setiv++ {
+								addA("verifH_c03_cbc", P("tier", tier, "single", single, "dir", dir, "n1", n1, "n2", n2, "inplace", inplace, "setiv", setiv), sm4ov)
+							}
+						}
+					}
+				}
+			}
+		}
+		for dir := 0; dir < 2; dir++ {
+			for _, n := range []int{0, 1, 3, 4, 5, 8, 9, 17} {
+				for inplace := 0; inplace < 2; inplace++ {
+					addA("verifH_c03_ecb_asm", P("tier", tier, "dir", dir, "n", n, "inplace", inplace), sm4ov)
+				}
+			}
+		}
+	}
 	return cs
 }
 
